@@ -420,6 +420,18 @@ fn scenarios(prop: &str, rng: &mut Rng, thorough: bool) -> Vec<Scenario> {
                 if prop != "C09" {
                     v.push(Scenario { name: format!("lzma2r-multi-valid-{size}-w{workers}"), kind: "lzma2r", input: multi.clone(), expect: Some(data.clone()), ..base.clone() });
                 }
+                if prop == "C08" && size == 13000 {
+                    // runs that start with more than 64 KiB of incompressible bytes followed by compressible data: the first
+                    // LZMA chunk of such a run comes after stored chunks and carries new properties and a state reset WITHOUT
+                    // a dictionary reset (control 0xC0..0xDF) - it is not the start of a work unit
+                    let mut d3 = Vec::new();
+                    for _ in 0..3 {
+                        d3.extend(gen_data(rng, "random", 70_000));
+                        d3.extend(gen_data(rng, "text", 30_000));
+                    }
+                    let (m3, _) = st_lzma2_multi(&d3, 1 << 16, 100_000);
+                    v.push(Scenario { name: format!("lzma2r-stored-then-lzma-w{workers}"), kind: "lzma2r", input: m3, expect: Some(d3), dict: 1 << 16, ..base.clone() });
+                }
                 if prop == "C10" {
                     for drop_at in [1usize, 4] {
                         v.push(Scenario { name: format!("lzma2r-multi-drop{drop_at}-{size}-w{workers}"), kind: "lzma2r", input: multi.clone(), expect: Some(data.clone()), reads_before_drop: Some(drop_at), ..base.clone() });
@@ -599,7 +611,7 @@ fn main() {
     let mut traces_total = 0usize;
     for sc in &scs {
         // scenarios that depend on a narrow window (close() racing a just-woken worker) get more schedules
-        let iters = if sc.name.contains("flush-one-drop") { base_iters * 8 } else { base_iters };
+        let iters = if sc.name.contains("flush-one-drop") { base_iters * 8 } else if sc.name.contains("stored-then-lzma") { (base_iters / 6).max(10) } else { base_iters };
         for sched in ["random", "pct"] {
             let obs = Arc::new(Mutex::new(Obs::default()));
             let sc2 = sc.clone();
